@@ -2596,8 +2596,11 @@ def subset_glyphs(self, s):
     if prop.Format == 0:
         return prop.DefaultProperties != 0
     elif prop.Format == 1:
+        # sorted: on a tie, most_common() picks the value met first, and the
+        # iteration order of the set s.glyphs depends on the hash seed
         prop.Properties = {
-            g: prop.Properties.get(g, prop.DefaultProperties) for g in s.glyphs
+            g: prop.Properties.get(g, prop.DefaultProperties)
+            for g in sorted(s.glyphs)
         }
         mostCommon, _cnt = Counter(prop.Properties.values()).most_common(1)[0]
         prop.DefaultProperties = mostCommon
